@@ -158,8 +158,10 @@ var fatalPat = regexp.MustCompile(`(?m)^(fatal error: [^\n]*|runtime: [^\n]*out 
 
 // stackSignature describes the stack of the goroutine that ran the call, for
 // stable violation keys: "inner=<innermost library function> cycle={the
-// distinct library functions among the innermost frames, sorted}
-// entry=<outermost library function, i.e. the public entry point>".
+// distinct library functions among the 60 innermost frames, without the
+// object reader, sorted: for a recursion this is the set of functions of the
+// cycle, wherever the stack happened to end} entry=<outermost library
+// function>".
 func stackSignature(dump string, running bool) string {
 	blocks := strings.Split(dump, "\n\n")
 	best := ""
@@ -184,7 +186,7 @@ func stackSignature(dump string, running bool) string {
 	seen := map[string]bool{}
 	var fns []string
 	n := 0
-	entry := "?"
+	entry, inner := "?", ""
 	for _, line := range strings.Split(best, "\n") {
 		if strings.HasPrefix(line, "\t") || !strings.Contains(line, "seehuhn.de/go/") || strings.Contains(line, "verif/harness") {
 			continue
@@ -197,7 +199,14 @@ func stackSignature(dump string, running bool) string {
 			continue
 		}
 		entry = fn
-		if n++; n > 40 {
+		if inner == "" {
+			inner = fn
+		}
+		if n++; n > 60 {
+			continue
+		}
+		// the object reader is at the bottom of every stack: it says nothing about the cycle
+		if strings.HasPrefix(fn, "pdf.(*scanner).") || fn == "pdf.(*Reader).Get" || fn == "pdf.(*Reader).get" {
 			continue
 		}
 		if !seen[fn] {
@@ -205,13 +214,12 @@ func stackSignature(dump string, running bool) string {
 			fns = append(fns, fn)
 		}
 	}
-	if len(fns) == 0 {
+	if inner == "" {
 		return "inner=? cycle={} entry=?"
 	}
-	inner := fns[0]
 	sort.Strings(fns)
-	if len(fns) > 3 {
-		fns = fns[:3]
+	if len(fns) > 4 {
+		fns = fns[:4]
 	}
 	return "inner=" + inner + " cycle={" + strings.Join(fns, ",") + "} entry=" + entry
 }
